@@ -549,6 +549,9 @@ class _State:
                 # ttb.sptensor.from_aggregator(...), ttb.pyttb_utils.f(...)
                 return self.call_named([n], args, e, kwargs=kwargs, copy_flag=copy_flag, cls_hint=owner.attr if isinstance(owner, ast.Attribute) else None)
             recv = self.expr(owner)
+            if n == "astype" and copy_flag is False:
+                # astype(..., copy=False) returns the receiver itself when no conversion is needed
+                return Val(recv.mem, (), "array")
             if n == "copy":
                 if recv.kind == "list":
                     return Val(recv.mem, (), "list")
